@@ -188,4 +188,49 @@ theorem genElems_spec (c : Ctx) (k : Nat) (actss : List (List Member)) (b0 : Nat
           have hne' : acts.isEmpty = false := by cases acts <;> simp_all
           simp [List.zipIdx_cons, hd, he, hdd, hne', Elem.sem, Ctx.multi, Ctx.wrapOf, Ctx.varOf]
 
+/-! ### errors of the step generator are internal, never configuration rejections -/
+
+theorem genElems_err (c : Ctx) (k : Nat) (actss : List (List Member)) (b0 : Nat) (e : GenErr)
+    (h : genElems c k actss b0 = .error e) : ∃ ce, e = .internal ce := by
+  induction actss generalizing b0 with
+  | nil => simp [genElems] at h
+  | cons acts rest ih =>
+    simp only [genElems] at h
+    split at h
+    · cases h; exact ⟨_, rfl⟩
+    · split at h
+      · rename_i e' he
+        cases h
+        exact ih _ he
+      · split at h <;> cases h
+
+theorem genStep_err (c : Ctx) (k : Nat) (e : GenErr) (h : genStep c k = .error e) : ∃ ce, e = .internal ce := by
+  unfold genStep at h
+  split at h
+  · rename_i e' he
+    cases h
+    exact genElems_err c k _ 0 _ he
+  · cases h
+
+theorem genSteps_err (c : Ctx) (rem k : Nat) (e : GenErr) (h : genSteps c rem k = .error e) : ∃ ce, e = .internal ce := by
+  induction rem generalizing k with
+  | zero =>
+    simp only [genSteps] at h
+    split at h
+    · rename_i e1 h1
+      cases h
+      exact genStep_err c k _ h1
+    · cases h
+  | succ rem ih =>
+    simp only [genSteps] at h
+    split at h
+    · rename_i e1 h1
+      cases h
+      exact genStep_err c k _ h1
+    · split at h
+      · rename_i e2 h2
+        cases h
+        exact ih _ h2
+      · cases h
+
 end JoinModel
